@@ -160,7 +160,9 @@ def gen_stack(rng):
     pads = ["", "", " ", "  ", "\t"]
     texts = [f"{rng.choice(pads)}{s_}{rng.choice(pads)}/{rng.choice(pads)}{k_}{rng.choice(pads)}={rng.choice(pads)}{v_}{rng.choice(pads)}"
              for s_, k_, v_ in overrides]
-    return {"defaults": defaults, "files": files, "keyring": keyring, "overrides": overrides, "override_texts": texts}
+    spelling = [rng.choice(["abs", "abs", "home", "xdg"]) for _ in files]
+    return {"defaults": defaults, "files": files, "keyring": keyring, "overrides": overrides, "override_texts": texts,
+            "spelling": spelling}
 
 
 def edited_stack(stack, rng):
@@ -351,11 +353,27 @@ class Faults:
 
         C.os = OsProxy()
         pathlib.Path.open = fake_open
+        # ~ and $XDG_CONFIG_DIR lead into the scratch directory while the load runs
+        from mopidy.internal import path as P
+
+        self.P = P
+        self.saved_home = os.environ.get("HOME")
+        self.saved_xdg = P.XDG_DIRS.get("XDG_CONFIG_DIR")
+        os.environ["HOME"] = str(mat.root)
+        P.XDG_DIRS["XDG_CONFIG_DIR"] = pathlib.Path(mat.root)
         return self
 
     def __exit__(self, *exc):
         self.C.os = self.saved_os
         pathlib.Path.open = self.saved_open
+        if self.saved_home is None:
+            os.environ.pop("HOME", None)
+        else:
+            os.environ["HOME"] = self.saved_home
+        if self.saved_xdg is None:
+            self.P.XDG_DIRS.pop("XDG_CONFIG_DIR", None)
+        else:
+            self.P.XDG_DIRS["XDG_CONFIG_DIR"] = self.saved_xdg
 
 
 def canon_exc(e):
@@ -381,6 +399,31 @@ def canon_raw(raw):
     return out
 
 
+def render_defaults(stack):
+    """Extension default strings as the code accepts them: str or bytes, MIXED in one list."""
+    out = []
+    for i, d in enumerate(stack["defaults"]):
+        text = render_lines(d, 17 + i)
+        as_bytes = (i + len(stack["files"])) % 2 == 1
+        try:
+            out.append(text.encode("utf-8") if as_bytes else text)
+        except UnicodeEncodeError:
+            out.append(text)
+    return out
+
+
+def spelled_paths(stack, mat):
+    """The `files` argument as a user writes it: absolute, through ~ or through $XDG_CONFIG_DIR
+    (HOME and XDG_CONFIG_DIR point into the scratch directory while the load runs)."""
+    spell = stack.get("spelling") or []
+    out = []
+    for i, p in enumerate(mat.paths):
+        how = spell[i] if i < len(spell) else "abs"
+        rel = pathlib.Path(p).relative_to(mat.root)
+        out.append(pathlib.Path("~") / rel if how == "home" else pathlib.Path("$XDG_CONFIG_DIR") / rel if how == "xdg" else p)
+    return out
+
+
 def parse_overrides(stack):
     """-o section/key=value texts through mopidy.commands.config_override_type (the real parser)."""
     from mopidy import commands
@@ -396,7 +439,7 @@ def run_load(stack, via_load=False, mat=None):
     from mopidy import config as C
 
     mat = mat if mat is not None else Materialised(stack)
-    defaults = [render_lines(d, 17 + i) for i, d in enumerate(stack["defaults"])]
+    defaults = render_defaults(stack)
     keyring = [(s, k, v.encode("utf-8", "surrogateescape")) for s, k, v in stack["keyring"]]
     overrides = parse_overrides(stack)
     try:
@@ -407,12 +450,12 @@ def run_load(stack, via_load=False, mat=None):
                 C.keyring.fetch = lambda: list(keyring)
                 C._validate = lambda raw, schemas: (captured.setdefault("raw", raw), {})
                 try:
-                    C.load(list(mat.paths), [], defaults, overrides)
+                    C.load(spelled_paths(stack, mat), [], defaults, overrides)
                     out = ("ok", canon_raw(captured["raw"]))
                 finally:
                     C.keyring.fetch, C._validate = saved_fetch, saved_validate
             else:
-                raw = C._load(list(mat.paths), defaults, keyring + overrides)
+                raw = C._load(spelled_paths(stack, mat), defaults, keyring + overrides)
                 out = ("ok", canon_raw(raw))
     except Exception as e:  # noqa: BLE001
         out = ("raise", canon_exc(e))
@@ -856,13 +899,13 @@ def validated_probe(chk, stack, mat, case, dlines):
         for k in KEYS:
             sc[k] = T.String(optional=True)
         exts.append(sc)
-    defaults = [render_lines(d, 17 + i) for i, d in enumerate(stack["defaults"])]
+    defaults = render_defaults(stack)
     keyring = [(s, k, v.encode("utf-8", "surrogateescape")) for s, k, v in stack["keyring"]]
     saved = C.keyring.fetch
     try:
         with Faults(mat):
             C.keyring.fetch = lambda: list(keyring)
-            cfg, errs = C.load(list(mat.paths), exts, defaults, parse_overrides(stack))
+            cfg, errs = C.load(spelled_paths(stack, mat), exts, defaults, parse_overrides(stack))
     except Exception as e:  # noqa: BLE001
         chk.monitor_failure("load_total", {"call": "load", "exception": canon_exc(e), "cause": "validated"},
                             f"{canon_exc(e)} escaped the full config.load", case)
